@@ -530,6 +530,130 @@ def r_variadic(cg, B, rep, P):
            'SSE registers are saved %r bytes apart and va_arg advances by %r; psABI 3.5.7: 16-byte slots (fp_offset 48..176). A va_list made here and walked by libc (vprintf with two or more doubles), or made by another compiler and walked here, reads the wrong registers' % (s2, s3), where=where)
 
 
+def r_reg_class(P, B, rep):
+    """va_arg picks its walker from __builtin_reg_class(type): 0 = fetched from the INTEGER part of the save area, 1 = from the SSE part,
+    2 = from the overflow area. primary() is interpreted on the builtin for every scalar type and for the struct vocabulary and the answer is
+    compared with the psABI class of the type (a type the caller passes in registers must not be looked for in memory, and vice versa)"""
+    from ..interp import Interp, Obj, Sym
+    pu = P.unit('parse.c')
+    if 'primary' not in pu.functions:
+        rep.undecided('R06.4', 'parse.c:primary:reg-class', 'primary() vanished'); return
+    where = 'parse.c:%d' % pu.fn('primary').line
+    names = ['char', 'short', 'int', 'long', 'uchar', 'uint', 'ulong', 'ptr', 'bool', 'float', 'double', 'ldouble'] + sorted(STRUCTS)
+    seen = 0
+    for tn in names:
+        cls = classify(tn)
+        if tn in STRUCTS:
+            tag = 'struct-' + '-'.join(cls)
+        else:
+            tag = tn
+        want = 2 if cls in (['MEMORY'], ['X87']) else (0 if cls == ['INTEGER'] else (1 if cls == ['SSE'] else None))
+        box = {}
+
+        def m_equal(it, ctx, n, a):
+            return 1 if (a[0] is ctx.tok0 and a[1] == '__builtin_reg_class') else 0
+
+        def m_typename(it, ctx, n, a, tn=tn):
+            return B.ty(it, tn)
+
+        def m_new_num(it, ctx, n, a):
+            ctx.emit('num', a[0]); return Obj('Node', lazy=True, label='num')
+        it = Interp(P, pu, {'models': {'equal': m_equal, 'typename': m_typename, 'skip': lambda it, ctx, n, a: Obj('Token', lazy=True, label='after'), 'new_num': m_new_num,
+                                       'consume': lambda *a: 0}, 'opaque': ['error_tok']})
+
+        def mk(ctx):
+            ctx.tok0 = Obj('Token', lazy=True, label='tok0')
+            return [Sym('rest'), ctx.tok0]
+        try:
+            res = [(c, o) for c, o in it.explore('primary', mk) if o[0] == 'ret']
+        except (Unsupported, AnalysisBroken) as e:
+            rep.undecided('R06.4', 'parse.c:primary:reg-class/%s' % tag, 'primary() not interpretable on __builtin_reg_class: %s' % e, where=where); continue
+        nums = {tuple(e[1] for e in c.events if e[0] == 'num') for c, o in res}
+        if len(res) == 0 or len(nums) != 1 or len(next(iter(nums))) != 1:
+            rep.undecided('R06.4', 'parse.c:primary:reg-class/%s' % tag, 'the answer of __builtin_reg_class is not a single constant (%r)' % (nums,), where=where); continue
+        got = next(iter(nums))[0]
+        seen += 1
+        if want is None:
+            # a two-eightbyte or mixed aggregate the caller passes in registers: none of the three walkers fetches it correctly;
+            # only "memory" is certainly wrong when registers are available
+            ok = False
+            msg = ('va_arg of a %s aggregate (%s) uses walker %r; the caller passes it in registers (classes %s) and stdarg.h has no walker that reassembles an aggregate from the '
+                   'register save area: the variadic callee reads it from the wrong place' % (tn, '+'.join(t for t, o in STRUCTS[tn][2]), got, cls))
+        else:
+            ok = got == want
+            msg = ('__builtin_reg_class(%s) is %r; the psABI class of the type is %s, so va_arg must use walker %d (0 INTEGER save area, 1 SSE save area, 2 overflow area): '
+                   'the variadic callee looks for the argument where the caller did not put it' % (tn, got, '/'.join(cls), want))
+        rep.ob('R06.4', 'parse.c:primary:reg-class/%s' % tag, ok, msg, where=where)
+    if seen < 12:
+        rep.undecided('R06.4', 'parse.c:primary:reg-class', 'only %d types could be evaluated' % seen, where=where)
+
+
+def r_va_walkers(P, rep):
+    """the three va_arg walkers of include/stdarg.h, evaluated (sa/lib_minic.py) on a grid of va_list states and compared with the
+    va_arg algorithm of psABI 3.5.7 as functions: returned address and the updated va_list"""
+    from ..lib_minic import parse_functions, Eval, NotInSubset
+    where = 'include/stdarg.h'
+    txt = open(P.header('include/stdarg.h')).read()
+    try:
+        fns = parse_functions(txt, typenames=('__va_elem',))
+    except NotInSubset as e:
+        rep.undecided('R06.4', 'include/stdarg.h:walkers', 'the header functions are outside the evaluated C subset: %s' % e, where=where); return
+    up = lambda n, a: (n + a - 1) // a * a
+
+    def o_mem(st, sz, al):
+        p = st['overflow_arg_area']
+        if al > 8:
+            p = up(p, 16)
+        st['overflow_arg_area'] = up(p + sz, 8)
+        return p
+
+    def o_gp(st, sz, al):
+        if st['gp_offset'] >= 48:
+            return o_mem(st, sz, al)
+        r = st['reg_save_area'] + st['gp_offset']; st['gp_offset'] += 8
+        return r
+
+    def o_fp(st, sz, al):
+        if st['fp_offset'] >= 176:
+            return o_mem(st, sz, al)
+        r = st['reg_save_area'] + st['fp_offset']; st['fp_offset'] += 16
+        return r
+    SHAPES = {'__va_arg_mem': (o_mem, [(sz, al) for sz in (1, 2, 4, 8, 12, 16, 20, 24, 32, 40) for al in (1, 2, 4, 8, 16) if sz % al == 0]),
+              '__va_arg_gp': (o_gp, [(1, 1), (2, 2), (4, 4), (8, 8), (8, 4), (4, 1)]),
+              '__va_arg_fp': (o_fp, [(4, 4), (8, 8), (8, 4)])}
+    for name, (oracle, shapes) in SHAPES.items():
+        key = 'include/stdarg.h:%s:walk-equals-psabi' % name
+        if name not in fns:
+            rep.undecided('R06.4', key, '%s is not defined as a function in the header' % name, where=where); continue
+        bad = None
+        n = 0
+        try:
+            for sz, al in shapes:
+                for gp in range(0, 56, 8):
+                    for fp in range(48, 192, 16):
+                        for ov in range(0x7000, 0x7000 + 32, 4 if name == '__va_arg_mem' else 8):
+                            if ov % 8 and name != '__va_arg_mem':
+                                continue
+                            if ov % 8:
+                                continue    # the overflow area pointer is always 8-byte aligned (invariant of the walk itself)
+                            st0 = {'gp_offset': gp, 'fp_offset': fp, 'overflow_arg_area': ov, 'reg_save_area': 0x5000}
+                            a, b = dict(st0), dict(st0)
+                            got = Eval(fns).call(name, [a, sz, al])
+                            want = oracle(b, sz, al)
+                            n += 1
+                            if (got != want or a != b) and bad is None:
+                                bad = (st0, sz, al, got, a, want, b)
+        except NotInSubset as e:
+            rep.undecided('R06.4', key, '%s is outside the evaluated C subset: %s' % (name, e), where=where); continue
+        if bad:
+            st0, sz, al, got, a, want, b = bad
+            diff = ', '.join('%s %#x (psABI %#x)' % (k, a[k], b[k]) for k in a if a[k] != b[k])
+            msg = ('va_arg of a %d-byte type with alignment %d at gp_offset=%d fp_offset=%d overflow_arg_area=%#x: the walker returns %#x%s%s; '
+                   'psABI 3.5.7 returns %#x: the argument is fetched from the wrong place and every later va_arg of the walk is displaced'
+                   % (sz, al, st0['gp_offset'], st0['fp_offset'], st0['overflow_arg_area'], got, ' and leaves ' if diff else '', diff, want))
+        rep.ob('R06.4', key, bad is None, msg if bad else '', where=where, facts={'states': n})
+
+
 def r_callee_saved(P, rep):
     rep.rule('R06.8', 'no emitted instruction writes a callee-saved register (rbx, r12-r15); rbp/rsp are written only by the prologue/epilogue/alloca idioms', floor=1)
     cu = P.unit('codegen.c')
@@ -579,4 +703,6 @@ def run(P, rep, tier):
     r_callee(cg, B, rep, tier)
     r_returns(cg, B, rep)
     r_variadic(cg, B, rep, P)
+    r_va_walkers(P, rep)
+    r_reg_class(P, B, rep)
     r_callee_saved(P, rep)
